@@ -1,2 +1,165 @@
-use crate::harness::Gen;
-pub fn gens() -> Vec<Gen> { vec![] }
+//! C13: the issuer refuses claim sets that use the reserved names `_sd` or `...`.
+
+use crate::harness::{fail, Gen, Verdict};
+use crate::oracle::{path_spelling, Path, Seg, Strategy};
+use crate::pipeline::Cfg;
+use crate::rng::Rng;
+use crate::sut::Out;
+use crate::trees;
+use crate::util::{jstr, short, FAR_EXP, J};
+use serde_json::{json, Map};
+
+pub fn gens() -> Vec<Gen> {
+    vec![
+        Gen { name: "c13.planted", prop: "C13", tags: &["reserved", "check_for_sd_claim", "inv_arr", "clean", "src/lib.rs", "src/issuer.rs"], cases: cases_planted, check },
+        Gen { name: "c13.planted_enum", prop: "C13", tags: &["enum"], cases: cases_enum, check },
+    ]
+}
+
+fn special_trees() -> Vec<J> {
+    vec![
+        json!({"iss": "i", "exp": FAR_EXP, "a": {"b": {"c": 1}}, "arr": [{"k": 1}, [{"j": 2}, [{"deep": 3}]], []], "e": {}}),
+        json!({"iss": {"id": "i", "meta": [{"x": 1}, [{"y": 2}]]}, "iat": {"at": 1}, "exp": FAR_EXP, "v": 1}),
+        json!({"iss": "i", "iat": [{"t": 1}], "exp": {"t": FAR_EXP, "inner": {"z": 1}}, "v": [1]}),
+        json!({"iss": "i", "exp": FAR_EXP, "matrix": [[{"cell": 1}]], "m3": [[[{"q": null}]]]}),
+        json!({"iss": "i", "exp": FAR_EXP}),
+    ]
+}
+
+/// Paths of all objects in the tree (root = empty path).
+fn object_paths(v: &J) -> Vec<Path> {
+    fn walk(v: &J, cur: &mut Path, out: &mut Vec<Path>) {
+        match v {
+            J::Object(m) => {
+                out.push(cur.clone());
+                for (k, c) in m {
+                    cur.push(Seg::Key(k.clone()));
+                    walk(c, cur, out);
+                    cur.pop();
+                }
+            }
+            J::Array(a) => {
+                for (i, c) in a.iter().enumerate() {
+                    cur.push(Seg::Idx(i));
+                    walk(c, cur, out);
+                    cur.pop();
+                }
+            }
+            _ => {}
+        }
+    }
+    let mut out = Vec::new();
+    walk(v, &mut Vec::new(), &mut out);
+    out
+}
+
+fn plant(v: &J, at: &[Seg], name: &str, value: &J, first: bool) -> J {
+    fn go(v: &J, at: &[Seg], name: &str, value: &J, first: bool) -> J {
+        if at.is_empty() {
+            let mut m = Map::new();
+            if first {
+                m.insert(name.to_string(), value.clone());
+            }
+            if let Some(o) = v.as_object() {
+                for (k, c) in o {
+                    m.insert(k.clone(), c.clone());
+                }
+            }
+            if !first {
+                m.insert(name.to_string(), value.clone());
+            }
+            return J::Object(m);
+        }
+        match (&at[0], v) {
+            (Seg::Key(k), J::Object(o)) => J::Object(o.iter().map(|(kk, c)| (kk.clone(), if kk == k { go(c, &at[1..], name, value, first) } else { c.clone() })).collect()),
+            (Seg::Idx(i), J::Array(a)) => J::Array(a.iter().enumerate().map(|(j, c)| if j == *i { go(c, &at[1..], name, value, first) } else { c.clone() }).collect()),
+            _ => v.clone(),
+        }
+    }
+    go(v, at, name, value, first)
+}
+
+fn emit_tree(t: &J, n: &mut usize, rng: &mut Rng, sink: &mut dyn FnMut(J) -> bool) -> bool {
+    let values = [json!("x"), json!(["digest"]), json!({}), json!(null), json!({"...": "y"}), json!(0)];
+    let mut strategies = vec![Strategy::AllLevels, Strategy::TopLevel, Strategy::NoSD];
+    if trees::custom_safe(t) {
+        let paths = crate::oracle::all_paths(t);
+        if !paths.is_empty() {
+            let one: &Path = rng.pick(&paths);
+            strategies.push(Strategy::Custom(vec![path_spelling(one, false)]));
+            strategies.push(Strategy::Custom(paths.iter().map(|p| path_spelling(p, true)).collect()));
+        }
+        strategies.push(Strategy::Custom(vec![]));
+    }
+    for at in object_paths(t) {
+        for name in ["_sd", "..."] {
+            for s in &strategies {
+                *n += 1;
+                let value = &values[*n % values.len()];
+                let first = *n % 2 == 0;
+                let planted = plant(t, &at, name, value, first);
+                let cfg = Cfg::simple(planted, s.clone()).variant(*n);
+                let mut c = cfg.to_json();
+                c["control"] = t.clone();
+                c["planted_at"] = json!(format!("{}.{name}", crate::oracle::path_str(&at)));
+                if !sink(c) {
+                    return false;
+                }
+            }
+        }
+    }
+    true
+}
+
+fn cases_planted(rng: &mut Rng, sink: &mut dyn FnMut(J) -> bool) {
+    let mut n = 0usize;
+    for t in special_trees() {
+        if !emit_tree(&t, &mut n, rng, sink) {
+            return;
+        }
+    }
+    for (i, t) in trees::catalog().iter().enumerate() {
+        if !emit_tree(&trees::with_std(t, i), &mut n, rng, sink) {
+            return;
+        }
+    }
+}
+
+fn cases_enum(rng: &mut Rng, sink: &mut dyn FnMut(J) -> bool) {
+    let mut n = 0usize;
+    for nodes in 1..=4 {
+        for (i, t) in trees::trees_with_nodes(nodes).iter().enumerate() {
+            if !emit_tree(&trees::with_std(t, i), &mut n, rng, sink) {
+                return;
+            }
+        }
+    }
+    loop {
+        let (a, b) = (5 + rng.below(8), 2 + rng.below(5));
+        let t = trees::with_std(&trees::random_tree(rng, a, b), rng.below(3));
+        if !emit_tree(&t, &mut n, rng, sink) {
+            return;
+        }
+    }
+}
+
+pub fn check(case: &J) -> Verdict {
+    let Some(cfg) = Cfg::from_json(case) else { return Verdict::Trivial };
+    let at = case["planted_at"].as_str().unwrap_or("?");
+    match cfg.issue() {
+        Out::Err(_) => {}
+        Out::Ok(s) => {
+            return fail(
+                format!("issued an SD-JWT for claims {} with a reserved member at {at} under {} ({})", short(&jstr(&cfg.claims), 400), jstr(&cfg.strategy.to_json()), short(&s, 80)),
+                "issuance fails with an error",
+            )
+        }
+        Out::Panic(m) => return fail(format!("PANIC: {m}"), "issuance fails with an error"),
+    }
+    let mut control = cfg.clone();
+    control.claims = case["control"].clone();
+    match control.issue() {
+        Out::Ok(_) => Verdict::Pass,
+        o => fail(format!("control without the planted member ({}) -> {}", short(&jstr(&control.claims), 300), o.brief()), "issued"),
+    }
+}
